@@ -37,5 +37,34 @@ def joint_unique_all_absent(spec, table):
     if not uq or spec.get("kind") != "frame":
         return False
     names = {c["name"] for c in table["columns"]}
-    groups = [uq] if all(isinstance(x, str) for x in uq) else uq
+    groups = [uq] if not any(isinstance(x, (list, tuple)) for x in uq) else uq
     return any(not [x for x in g if x in names] for g in groups)
+
+
+def count_labels(run, relabelled):
+    for d in relabelled or []:
+        run.count(f"labels:{d[0]}")
+    if relabelled:
+        run.count("labels:falsy_label_case")
+
+
+def classify_context_leak(leak):
+    """Mechanism of 'validate left another configuration behind than it found'.
+    No such defect is known on the unchanged tree -> unclassified."""
+    return None
+
+
+def report_context_leaks(run, where=None):
+    """Config-context monitor (harness.run_validate brackets every validate
+    with two reads of the configuration): called by the check after each case."""
+    for leak in H.drain_context_leaks():
+        run.violation("validate-left-config-context-changed",
+                      dict(leak, case=where), classify_context_leak(leak))
+
+
+def finish_context_monitor(run):
+    """Evidence of how many validate calls the monitor bracketed (per shard)."""
+    n = H.MONITORED["n"]
+    if n:
+        run.count("config_monitor:validate_calls_bracketed", n)
+        H.MONITORED["n"] = 0
